@@ -123,7 +123,7 @@ def check(run):
     # ---- prange write-set monitor on the interpreted count/fill passes (decides all schedules of each case)
     from .. import hodrace
 
-    nmon = 10 if run.quick else 150
+    nmon = 16 if run.quick else 192  # case numbers 7000.. cycle through rsd x light-cone origin x ranks x tracer subsets: 16 reach every branch of both passes
     for j in range(nmon):
         case = c09.make_case(rng, ref, 7000 + j, sizes=[[2, 17, 60, 300][j % 4]])
         if len(case['part']['pinds']) > 800:
